@@ -2,6 +2,7 @@ CONSTANTS
   Logs = FALSE
   RecordHist = TRUE
   MaxInt = 2
+  Grow = FALSE
   AllowDie = TRUE
 SPECIFICATION Spec
 INVARIANT PrintSchedule
